@@ -57,6 +57,19 @@ CompositeOK(t, args, i, rw, sw) ==
        /\ LET big == DMax(MaxAbsArgs(f, args, i, 1), DMax(DAbs(Val(f, r)), DAbs(Val(f, s))))
           IN DIsZero(big) \/ DLe(DAbs(DSub(Val(f, r), Val(f, s))), DMulInt(UlpOf(f, big), 4))
 
+\* mix(x, y, a) = x (1 - a) + y a: the rounding error of the documented formula is bounded by the ulp of its larger TERM, not of its larger
+\* operand (x = 10^8, y = 1, a = 1 has the terms 0 and 1: the result is 1 to within an ulp of 1, not of 10^8)
+FinW(f, w) == Len(w) = FNLimbs(f) /\ IsFinite(f, Fields(f, w))
+MixOK(t, args, i, rw, sw) ==
+    LET f == TypeFmt(t) r == Fields(f, rw) s == Fields(f, sw)
+        xw == Comp(args[1], i) yw == Comp(args[2], i) aw == Comp(args[3], i) IN
+    IF Len(args) # 3 \/ ~FinW(f, xw) \/ ~FinW(f, yw) \/ ~FinW(f, aw) THEN CompositeOK(t, args, i, rw, sw)
+    ELSE \/ SameBitsOrBothNaN(t, rw, sw)
+         \/ /\ IsFinite(f, r) /\ IsFinite(f, s)
+            /\ LET x == Val(f, Fields(f, xw)) y == Val(f, Fields(f, yw)) a == Val(f, Fields(f, aw))
+                   big == DMax(DMax(DAbs(DMul(x, DSub(DFromInt(1), a))), DAbs(DMul(y, a))), DMax(DAbs(Val(f, r)), DAbs(Val(f, s))))
+               IN DIsZero(big) \/ DLe(DAbs(DSub(Val(f, r), Val(f, s))), DMulInt(UlpOf(f, big), 4))
+
 LowpRsqrtOK(rw, sw) ==
     LET r == Fields(F32, rw) s == Fields(F32, sw) IN
     \/ SameBitsOrBothNaN("f32", rw, sw)
@@ -87,7 +100,8 @@ LiftOKCfg(f, t, q, cfg, args, rws, sws) ==
     /\ \A i \in {j \in 1..Len(rws) : ~SkipComp(f, t, args, j) /\ ~(cfg = "simd" /\ f \in SimdNaNFamily /\ AnyNaNComp(t, args, j))} :
          CASE ClassOfCfg(f, t, q, cfg) = "EXACT" -> \/ SameBitsOrBothNaN(t, rws[i], sws[i])
                                                     \/ ((f \in MinMaxFamily \/ cfg = "simd") /\ BothZero(t, rws[i], sws[i]))
-           [] ClassOfCfg(f, t, q, cfg) = "COMPOSITE" -> IF TypeIsFloat(t) THEN CompositeOK(t, args, i, rws[i], sws[i]) ELSE rws[i] = sws[i]
+           [] ClassOfCfg(f, t, q, cfg) = "COMPOSITE" -> IF ~TypeIsFloat(t) THEN rws[i] = sws[i]
+                                                        ELSE IF f = "mix" THEN MixOK(t, args, i, rws[i], sws[i]) ELSE CompositeOK(t, args, i, rws[i], sws[i])
            [] ClassOfCfg(f, t, q, cfg) = "LOWP_APPROX" -> LowpApproxOK(args, i, rws[i], sws[i])
            [] ClassOfCfg(f, t, q, cfg) = "FREE" -> TRUE
            [] OTHER -> LowpRsqrtOK(rws[i], sws[i])
